@@ -115,6 +115,27 @@ pub enum Act {
 }
 
 impl Act {
+    /// the same action with every amount, price and ratio multiplied by `k` (6-decimal notation -> raw units of a
+    /// world with more decimals); actions are always executed in raw units
+    pub fn scaled(&self, k: u128) -> Act {
+        if k == 1 {
+            return self.clone();
+        }
+        let o = |x: &Option<u128>| x.map(|v| v * k);
+        match self.clone() {
+            Act::Open { t, v, buy, margin, lev, limit } => Act::Open { t, v, buy, margin: margin * k, lev: lev * k, limit: limit.saturating_mul(k) },
+            Act::Close { t, v, limit } => Act::Close { t, v, limit: limit.saturating_mul(k) },
+            Act::Dep { t, v, amt } => Act::Dep { t, v, amt: amt * k },
+            Act::Wd { t, v, amt } => Act::Wd { t, v, amt: amt * k },
+            Act::Liq { by, t, v, limit } => Act::Liq { by, t, v, limit: limit.saturating_mul(k) },
+            Act::Px { price } => Act::Px { price: price * k },
+            Act::VammCaps { by, v, oi_cap, holding_cap } => Act::VammCaps { by, v, oi_cap: o(&oi_cap), holding_cap: o(&holding_cap) },
+            Act::DepRaw { by, vamm, amt } => Act::DepRaw { by, vamm, amt: amt * k },
+            Act::EngConfig { by, imr, mmr, plr, lf } => Act::EngConfig { by, imr: o(&imr), mmr: o(&mmr), plr: o(&plr), lf: o(&lf) },
+            Act::VammConfig { by, v, toll, spread, fluct, twap } => Act::VammConfig { by, v, toll: o(&toll), spread: o(&spread), fluct: o(&fluct), twap },
+            a => a,
+        }
+    }
     pub fn open(t: &str, buy: bool, margin: u128, lev: u128) -> Act {
         Act::Open {
             t: t.into(),
@@ -230,7 +251,8 @@ pub fn native_open_candidates(
     margin: u128,
     lev: u128,
 ) -> Vec<u128> {
-    let n = margin.saturating_mul(lev) / D;
+    let d = w.d;
+    let n = margin.saturating_mul(lev) / d;
     let fees = {
         let r: Result<margined_perp::margined_vamm::CalcFeeResponse, String> = w.q(
             va,
@@ -243,7 +265,7 @@ pub fn native_open_candidates(
             Err(_) => 0,
         }
     };
-    let full = if lev > 0 { n * D / lev } else { 0 };
+    let full = if lev > 0 { n * d / lev } else { 0 };
     let p = match w.pos_at(va, t) {
         Some(p) if !p.size.is_zero() => p,
         _ => return vec![full + fees],
@@ -269,7 +291,7 @@ pub fn native_open_candidates(
     if lev == 0 || rem / lev == 0 {
         return vec![fees];
     }
-    let swap_margin = rem * D / lev;
+    let swap_margin = rem * d / lev;
     let pnl: i128 = if p.direction == Direction::AddToAmm {
         pn as i128 - p.notional.u128() as i128
     } else {
